@@ -180,7 +180,8 @@ def _run(ctx):
     valid = vkeys[:(8 if ctx.thorough else 4)]
     if "pred" not in valid:
         valid[-1] = "pred"
-    valid += list(B.TEXTURE_VALID) + list(B.FRACTIONS_VALID)
+    pool.update(B.VARIANTS_VALID)
+    valid += list(B.TEXTURE_VALID) + list(B.FRACTIONS_VALID) + list(B.VARIANTS_VALID)
     classes = list(B.FAILING) + list(B.TEXTURE_FAILING)
     solo = {}
     jobs = [lambda k=k: (k, B.run_batch(binary, ex, "solo_" + re.sub(r"\W", "_", k), [k], pool, 1, 4, timeout=TIMEOUT))
